@@ -547,7 +547,7 @@ class C13Check(LifeCheckBase):
         "integer seeds are used; the position of a RandomState instance passed as parameter is not judged",
         "histories do not mix weighted and unweighted calls on a sliding window (unspecified by the documentation)",
     ]
-    tiers = {"quick": {"runs": 1500, "wall_cap": 500, "chunk": 15}, "thorough": {"runs": 36000, "wall_cap": 3300, "chunk": 30}}
+    tiers = {"quick": {"runs": 3500, "wall_cap": 600, "chunk": 15}, "thorough": {"runs": 70000, "wall_cap": 3300, "chunk": 30}}
 
     def generate(self, rng: SimRng):
         g = rng.fork("kind")
@@ -888,7 +888,7 @@ class C11Check(LifeCheckBase):
         "cost optimality is judged up to ties (1e-9)",
         "the uniform-for-zero-labels clause is judged for ParzenWindowClassifier, MixtureModelClassifier, SklearnClassifier and AnnotatorLogisticRegression (with class_prior = 0)",
     ]
-    tiers = {"quick": {"runs": 1500, "wall_cap": 500, "chunk": 15}, "thorough": {"runs": 36000, "wall_cap": 3300, "chunk": 30}}
+    tiers = {"quick": {"runs": 4500, "wall_cap": 600, "chunk": 15}, "thorough": {"runs": 90000, "wall_cap": 3300, "chunk": 30}}
 
     def generate(self, rng: SimRng):
         return self.gen_life(rng, "C11")
@@ -1076,7 +1076,7 @@ class C15Check(LifeCheckBase):
         "std must be finite and non-negative when a proper prior (NIC: kappa_0, nu_0 > 0) or at least two labels are available",
         "after an injected failure the prediction must equal the documented fall-back (mean 0 without labels, else the empirical label mean; std 1 with fewer than two labels, else the empirical std)",
     ]
-    tiers = {"quick": {"runs": 1500, "wall_cap": 500, "chunk": 15}, "thorough": {"runs": 36000, "wall_cap": 3300, "chunk": 30}}
+    tiers = {"quick": {"runs": 6000, "wall_cap": 600, "chunk": 15}, "thorough": {"runs": 120000, "wall_cap": 3300, "chunk": 30}}
 
     def generate(self, rng: SimRng):
         return self.gen_life(rng, "C15")
